@@ -210,9 +210,31 @@ def accessor(ctx):
              key=b.name + '|V6')
 
 
+def level_source(ctx):
+    """V7: the nesting level the search compares is the file's 16-bit field, unnarrowed (all depths up to the format maximum)"""
+    import layout
+    fx = ctx.fx
+    b = ctx.anchor(LY + 'parse_chunk')
+    if b is None:
+        return
+    n = 0
+    for bb, st, t in q.stmt_aggs(b, LY + 'LayerData'):
+        n += 1
+        cl = dict(t[3]).get('child_level', ('unknown',))
+        oks = []
+        for a in alts(cl):
+            inner, bad = layout.unwrap_value(expand(a, fx, 2, layout.noinl(fx)))
+            oks.append(layout.is_read_term(inner) and inner[1].endswith('AseReader::word') and not bad)
+        ok = bool(oks) and all(oks)
+        ctx.inst('V7', 'LayerData.child_level', ok, 'child_level = %s; must be the WORD read from the layer chunk without a narrowing cast' % show(cl)[:100],
+                 st.get('span'), key=b.name + '|V7|child_level')
+    ctx.floor('LayerData constructions in layer::parse_chunk', n, 1)
+
+
 def run(ctx):
     ctx.rules = ['V1 visibility = AND over the ancestor chain', 'V2 hidden layers are not drawn', 'V3 parent table shape (I10)',
-                 'V4 nearest preceding lower-level search', 'V5 no parent iff level 0', 'V6 parent() accessor']
+                 'V4 nearest preceding lower-level search', 'V5 no parent iff level 0', 'V6 parent() accessor',
+                 'V7 the level compared is the unnarrowed 16-bit file field']
     ctx.assumptions += ['Iterator::enumerate/take/rposition behave as documented (rposition = index of the last match)',
                         'LayerFlags::VISIBLE is bit 1 (checked by C01 L2/L3 for the flags getter)']
     ctx.explanation = (
@@ -232,4 +254,5 @@ def run(ctx):
     ctx.inst('V3', 'parent table', ok, why, None, key='asefile::layer::compute_parents|V3')
     parent_search(ctx)
     accessor(ctx)
+    level_source(ctx)
     ctx.samples = [i for i in ctx.instances][:14]
